@@ -235,9 +235,10 @@ def coq_eval(name, imports, defs, terms, shard=300, timeout=900):
     results = [None] * len(files)
 
     def launch(i):
-        return subprocess.Popen(['timeout', str(timeout), 'coqc', '-Q', str(COQ / 'theories'),
-                                 'XV', str(files[i])], stdout=subprocess.PIPE,
-                                stderr=subprocess.STDOUT, text=True)
+        # the output goes to a file: a pipe that nobody drains blocks coqc once the printed value exceeds its buffer
+        with open(str(files[i]) + '.out', 'w') as fh:
+            return subprocess.Popen(['timeout', str(timeout), 'coqc', '-Q', str(COQ / 'theories'),
+                                     'XV', str(files[i])], stdout=fh, stderr=subprocess.STDOUT)
     pending = list(range(len(files)))
     running = {}
     while pending or running:
@@ -246,7 +247,7 @@ def coq_eval(name, imports, defs, terms, shard=300, timeout=900):
             running[i] = launch(i)
         for i, p in list(running.items()):
             if p.poll() is not None:
-                results[i] = (p.returncode, p.stdout.read())
+                results[i] = (p.returncode, open(str(files[i]) + '.out').read())
                 del running[i]
         time.sleep(0.02)
     values = []
